@@ -15,11 +15,12 @@ import P2P.Drv.Termini
 import P2P.Drv.Pka
 import P2P.Drv.Geom
 import P2P.Drv.Cells
+import P2P.Drv.Peoe
 
 open P2P P2P.Drv
 
 def allHandlers : List (String × Handler) :=
-  PqrD.handlers ++ PdbReadD.handlers ++ DxD.handlers ++ PsizeD.handlers ++ CifD.handlers ++ FFD.handlers ++ SSD.handlers ++ TerminiD.handlers ++ PkaD.handlers ++ GeomD.handlers ++ CellsD.handlers
+  PqrD.handlers ++ PdbReadD.handlers ++ DxD.handlers ++ PsizeD.handlers ++ CifD.handlers ++ FFD.handlers ++ SSD.handlers ++ TerminiD.handlers ++ PkaD.handlers ++ GeomD.handlers ++ CellsD.handlers ++ PeoeD.handlers
 
 def answer (line : Str) : Str :=
   let line := line.filter (fun c => c ≠ '\n' && c ≠ '\r')
